@@ -1,6 +1,6 @@
 (* Exec/ReconExec.v — correspondence checkers of the family "recon"
    (C40 string migration, C27 reconciliation / bulk construction, C32 serde export, C33 CLI JSON). *)
-From AM Require Import Base.Prelude Base.Order Crdt.Types Crdt.Interp Crdt.Local Crdt.Migrate Exec.EditExec.
+From AM Require Import Base.Prelude Base.Order Crdt.Types Crdt.Interp Crdt.Local Crdt.Migrate Crdt.Update Exec.EditExec.
 Local Open Scope N_scope.
 
 (* ---- C40: one saved document loaded with StringMigration::ConvertToText.
@@ -27,4 +27,16 @@ Definition diag_migrate (e : enc) (changes : list change) (a : actor) (added : l
                end
   | EErr _ => ([4000], [])
   | EPanic => ([4001], [])
+  end.
+
+(* ---- C27: update_text.  old / new: the text before and after, cut into the units of the recovered script
+   (one unit per text element); script: the edit script recovered from the ops of the committed change
+   (runs of kept / deleted / inserted elements, in op order); after: what text() returned.  The script must
+   tile old and new, the hook arithmetic of the model must turn old into new, and new must be what the
+   implementation shows. *)
+Definition chk_script (e : enc) (old new : list grapheme) (s : list hook) (after : list N) : bool :=
+  wf_script old new s &&
+  match apply_script e old new s with
+  | Ok t => nlist_eqb t (concat new) && nlist_eqb t after
+  | _ => false
   end.
